@@ -184,6 +184,12 @@ impl<'a, P: ?Sized + PathImpl> PathMutImpl<'a, P> {
 		match segment.as_bytes() {
 			CURRENT_SEGMENT => true,
 			PARENT_SEGMENT => {
+				if self.as_bytes() == CURRENT_SEGMENT {
+					// A lone `.` is the shield left behind by a popped
+					// segment: the path is empty, `..` must not consume it.
+					self.clear()
+				}
+
 				self.pop();
 				true
 			}
